@@ -30,6 +30,27 @@ def coq_str(s):
         return '(lit "%s")' % s
     return "[" + "; ".join(str(ord(c)) for c in s) + "]%N"
 
+SAFE_LOG_CALLS = {"len", "round", "str", "type", "getattr", "time.time", "repr", "int", "float"}
+def safe_log_arg(e):
+    """expressions allowed as arguments of an ignored logging call: no calls except a few total built-ins, no subscripts
+    except a constant index into a name/attribute (guarded tuples like self.peer_name[0])"""
+    if isinstance(e, (ast.Constant, ast.Name)): return True
+    if isinstance(e, ast.Attribute): return safe_log_arg(e.value)
+    if isinstance(e, ast.JoinedStr): return all(safe_log_arg(v) for v in e.values)
+    if isinstance(e, ast.FormattedValue): return safe_log_arg(e.value) and e.format_spec is None
+    if isinstance(e, ast.IfExp): return safe_log_arg(e.test) and safe_log_arg(e.body) and safe_log_arg(e.orelse)
+    if isinstance(e, ast.BoolOp): return all(safe_log_arg(v) for v in e.values)
+    if isinstance(e, ast.UnaryOp): return safe_log_arg(e.operand)
+    if isinstance(e, ast.BinOp) and isinstance(e.op, (ast.Add, ast.Sub, ast.Mult)): return safe_log_arg(e.left) and safe_log_arg(e.right)
+    if isinstance(e, ast.Compare): return safe_log_arg(e.left) and all(safe_log_arg(c) for c in e.comparators)
+    if isinstance(e, ast.Subscript):
+        return isinstance(e.slice, ast.Constant) and isinstance(e.value, (ast.Name, ast.Attribute)) and safe_log_arg(e.value)
+    if isinstance(e, ast.Call):
+        try: name = ast.unparse(e.func)
+        except Exception: return False
+        return name in SAFE_LOG_CALLS and all(safe_log_arg(a) for a in e.args) and not e.keywords
+    return False
+
 # ------------------------------------------------------------------ the translator proper
 class Fn:
     """one function under translation"""
@@ -298,7 +319,11 @@ class Fn:
             if isinstance(v, ast.Constant) and isinstance(v.value, str): return self.block(rest, k, kc)          # docstring
             if isinstance(v, ast.Call):
                 key = self.call_key(v) if isinstance(v.func, (ast.Name, ast.Attribute)) else ""
-                if key.startswith("logger."): return self.block(rest, k, kc)
+                if key.startswith("logger."):
+                    # a log call is ignored only if evaluating its arguments cannot raise or have effects
+                    for a in list(v.args) + [kw.value for kw in v.keywords]:
+                        if not safe_log_arg(a): bad(a, "argument of a logging call that may raise")
+                    return self.block(rest, k, kc)
                 # list mutation: x.append(e) / x.extend(gen) / x.pop()
                 if isinstance(v.func, ast.Attribute) and isinstance(v.func.value, ast.Name) and v.func.value.id in self.env:
                     name = v.func.value.id
